@@ -29,6 +29,7 @@ ASSUMPTIONS = ["meshes are valid inputs of the mesh classes (manifold surfaces, 
                "coordinates are finite; for stl within the float32 range (the format stores float32)",
                "stl expresses triangles and quads (as two triangles); for larger polygons the exporter's explicit ValueError refusal is accepted",
                "attribute names match [A-Za-z_][A-Za-z0-9_]* and avoid the names reserved by mouette / geogram",
+               "string attribute values hold no whitespace, '#', line break or bracket (the format stores one value per line)",
                "config switches are constant during a case (build, save, load)",
                "layout variation of foreign files is limited to the forms the importers' own handling shows as intended (DESIGN C04 oracle 3)"]
 
@@ -278,7 +279,7 @@ def attr_value(typ):
         return st.booleans()
     if typ == "complex":
         return st.tuples(st.floats(-10, 10), st.floats(-10, 10)).map(lambda t: complex(*t))
-    return st.text(alphabet="abcXYZ019_ ", max_size=8)
+    return st.text(alphabet="abcXYZ019_", max_size=8)
 
 
 @st.composite
@@ -751,8 +752,8 @@ def fn_roundtrip(case, ctx):
                     file_ok &= bool(ctx.check(nok, "file:normals", f"normals in the file {short(r['N'])}, attribute {short(na)}"))
                 if fmt == "geogram_ascii":
                     for (cont, name), vals in sorted(orig_attrs.items()):
-                        if attr_dropped(cont, ignore):
-                            continue
+                        if attr_dropped(cont, ignore) or not vals:
+                            continue        # (an attribute over an empty container is an empty map: nothing to carry)
                         a = [x for x in case["attrs"] if x["name"] == name][0]
                         g = r["attrs"].get((GEO_SET[cont], name))
                         if not ctx.check(g is not None, "file:attr-missing", f"attribute {name} of {cont} is not in the file as an attribute of {GEO_SET[cont]}"):
@@ -761,6 +762,13 @@ def fn_roundtrip(case, ctx):
                         tyok = (a["type"] == "float" and g["type"] in ("double", "float")) or (a["type"] == "int" and g["type"] in R._GEO_INT) \
                             or (a["type"] == "bool" and g["type"] == "bool")
                         rowsv = [v if isinstance(v, list) else [v] for v in vals]
+                        if a["type"] in ("complex", "str") and not g["known_type"]:
+                            # not a geogram type: a geogram reader skips the attribute; the text must still be the value
+                            try:
+                                g = dict(g, values=[[complex(x) if a["type"] == "complex" else x for x in row] for row in g["values"]])
+                                tyok = True
+                            except ValueError:
+                                pass
                         file_ok &= bool(ctx.check(tyok and g["dim"] == a["dim"] and g["values"] == rowsv, "file:attr",
                                                   f"attribute {name} of {cont} in the file: type {g['type']} dim {g['dim']} values {short(g['values'])}; "
                                                   f"stored: {a['type']} x{a['dim']} {short(rowsv)}"))
@@ -786,14 +794,12 @@ def fn_roundtrip(case, ctx):
         if loaded is None:
             return
         for (cont, name), vals in sorted(orig_attrs.items()):
-            if fmt not in ("geogram_ascii", "xyz") or attr_dropped(cont, ignore):
+            if fmt not in ("geogram_ascii", "xyz") or attr_dropped(cont, ignore) or not vals:
                 continue
             a = [x for x in case["attrs"] if x["name"] == name][0]
             lc = getattr(loaded, cont, None)
             if lc is None or len(lc) != len(vals):
                 ctx.check(not same, "attr:container", f"container {cont} has {None if lc is None else len(lc)} elements after loading, {len(vals)} before")
-                continue
-            if fmt == "xyz" and len(vals) == 0:
                 continue
             if not ctx.check(lc.has_attribute(name), "attr:missing", f"attribute {name} ({a['type']} x{a['dim']}) of {cont} is absent after loading"):
                 continue
@@ -961,4 +967,40 @@ for _f in FORMATS:
     SUBCHECKS.append(SubCheck(NAMES[_f], case_strategy(_f), fn_roundtrip, quick=160, thorough=1500))
     SUBCHECKS.append(SubCheck(NAMES[_f] + "_ext", case_strategy(_f), fn_ext, quick=120, thorough=1000))
 
-MATCHERS = {}
+
+# ---------------------------------------------------------------------------------------------- proposed known findings
+
+_ELEMENT_SIGS = {"cells", "faces", "edges", "hard-edges", "class"}
+
+
+def kf_off_quad_read_as_tet(case, violation):
+    """OFF: the exporter writes a 4-vertex face as the line '4 a b c d', the importer reads every such line as a
+    tetrahedron (its docstring documents that dialect), so a surface with quads comes back as a VolumeMesh.
+    Narrow: format off, a quad is among the faces written, symptom = elements / class differ (never coordinates)."""
+    if case.get("fmt") != "off":
+        return False
+    pre, _, what = violation.signature.partition(":")
+    if what not in _ELEMENT_SIGS:
+        return False
+    if pre == "ext":
+        return any(len(f) == 4 for f in case.get("F", []))
+    if pre == "rt":
+        if "faces" in (case.get("ignore") or []):
+            return False
+        # (the quad faces completed from hexahedra when the mesh was built are written too)
+        return any(len(c) == 8 for c in case.get("C", [])) or any(len(f) == 4 for f in case.get("F", []))
+    return False
+
+
+def kf_geogram_text_attribute(case, violation):
+    """geogram_ascii: complex / str attributes are exported with element size 'None' and cannot be read back (only relevant
+    if fix C04-7 is not taken). Narrow: format geogram, the mesh carries a complex or str attribute, symptom = the file is
+    unreadable / load raises."""
+    if case.get("fmt") != "geogram_ascii":
+        return False
+    if not any(a.get("type") in ("complex", "str") for a in case.get("attrs", [])):
+        return False
+    return violation.signature in ("file:unreadable", "rt:load:raises")
+
+
+MATCHERS = {"kf_off_quad_read_as_tet": kf_off_quad_read_as_tet, "kf_geogram_text_attribute": kf_geogram_text_attribute}
